@@ -10,7 +10,7 @@
    intermediate states INSIDE shutil.rmtree / a cross-device shutil.move; the check kills the real
    commands before every syscall-level mutation for that. *)
 From TV Require Import Prelude.Str Prog.Prog Cmd.Put Cmd.Scan Cmd.Empty Cmd.Rm Cmd.Restore
-  Proofs.ProgProofs Proofs.PathProofs Proofs.OrderProofs Proofs.RestoreProofs World.World Proofs.WorldProofs Proofs.WorldPurge Proofs.WorldRestore.
+  Proofs.ProgProofs Proofs.PathProofs Proofs.OrderProofs Proofs.RestoreProofs World.World Proofs.WorldProofs Proofs.WorldPurge Proofs.WorldRestore Proofs.PurgeProofs Proofs.WorldEmptyOrder.
 Open Scope N_scope.
 
 Theorem rm_payload_before_info : forall o,
@@ -41,6 +41,14 @@ Theorem rm_payload_is_gone_when_info_is_removed : forall o,
   all_runs (fun t _ => forall s, wok payload_gone s t) (rm_main o).
 Proof. exact rm_payload_gone_lemma. Qed.
 Print Assumptions rm_payload_is_gone_when_info_is_removed.
+
+(* ---- trash-empty: the same, with the one stated exception - a payload the file system has REFUSED to remove (OSError to
+   remove and to rmtree, reported as "cannot remove"): only then does trash-empty go on to the info file while the payload is
+   still there, and a kill cannot produce that answer.  wokm carries the history of the run (OrderProofs.order_step false). ---- *)
+Theorem empty_payload_is_gone_or_refused_when_info_is_removed : forall o, Forall clean (eo_trash_dirs o) ->
+  all_runs (fun t _ => forall s, wokm [] s t) (empty_main o).
+Proof. exact empty_payload_gone_lemma. Qed.
+Print Assumptions empty_payload_is_gone_or_refused_when_info_is_removed.
 
 (* ---- and trash-restore: at every Move the destination is absent (C06), and whenever the info file of an entry is removed its
    payload is no longer in the trash - it was the source of the move that has just returned ---- *)
